@@ -7,3 +7,4 @@ from . import externals  # noqa: E402,F401
 from . import ip_core    # noqa: E402,F401
 from . import juniper    # noqa: E402,F401
 from . import as_numbers  # noqa: E402,F401
+from . import secrets     # noqa: E402,F401
